@@ -280,6 +280,10 @@ def run(ctx):
                 lazy = _private_cache(prog, f, tgt)
             ctx.ob("R-PURE", "C05.5", f, "a property getter only writes an attribute as a lazy cache fill (under `self.<attr> is None`): reading a result never changes the state it is computed from", lazy, f"`{src(st)[:90]}` writes self.{tgt} under {facts}", node=n)
     ctx.ob("R-PURE", "C05.5", "nessai", "purity rule ran over every property getter of the package", True, f"{n_prop} property getters")
+    # an option attribute that is compared as stored must be stored normalised (class-level R-NORM)
+    from ..rules import optnorm as _on2
+    for _f, _n, _ok, _why in _on2.scan_attributes(prog):
+        ctx.ob("R-NORM", "C05.5", _f, "an option that is accepted case-insensitively and compared as stored is stored in its normalised spelling", _ok, _why, node=_n)
     # a value handed out by a property is modified in place only if the getter returns a fresh object (R-ALIAS, with C02.7)
     from ..rules import alias as _alias
     _al = _alias.scan(prog)
